@@ -533,7 +533,9 @@ func (r *EngineRunner) crashLines(f []string, emit func(line, res string)) {
 			r.crashOracle(k, oc, res, d1, d2)
 			cutTok := strings.TrimSuffix(cut, ":hdr")
 			emit(fmt.Sprintf("E crashat %d %s %s", k, cutTok, strings.Join(cfg, " ")), res)
-			if (strings.HasSuffix(cut, ":hdr") || (strings.HasPrefix(cut, "at:") && r.crashProp == "C03")) && d1 != nil {
+			bigLimit := atou(cfg[0]) > 512*1024*1024
+			if (strings.HasSuffix(cut, ":hdr") || (strings.HasPrefix(cut, "at:") && r.crashProp == "C03") ||
+				(cut == "none" && mmap && bigLimit && r.crashProp == "C03")) && d1 != nil {
 				// the recovered database goes on: one more Put, a restart, another restart
 				if err := r.shadow.materialize(k, r.dir(), root, cutf); err == nil {
 					res := r.continuePlain(k, root, cfg, d1)
